@@ -544,7 +544,11 @@ impl<'a, 'u, 'd> BodyGen<'a, 'u, 'd> {
                     *g::choose(self.u, &filled)
                 };
                 exact_slot = Some(slot);
-                (0, Some(self.m.func_types[f as usize]))
+                // any index of a structurally equal type will do
+                let t = self.m.func_types[f as usize];
+                let same: Vec<u32> = (0..self.m.types.len() as u32).filter(|i| self.m.types[*i as usize] == self.m.types[t as usize]).collect();
+                let t = if same.len() > 1 { *g::choose(self.u, &same) } else { t };
+                (0, Some(t))
             } else {
                 (0, Some(g::idx(self.u, self.m.types.len()) as u32))
             }
@@ -895,7 +899,9 @@ pub fn gen_module(u: &mut Unstructured, cfg: &GenConfig) -> Generated {
             _ => Some(I64),
         };
         let t = FuncType { params, result };
-        if !m.types.contains(&t) {
+        // the type section may declare the same function type more than once (call_indirect compares
+        // types structurally, not by index)
+        if !m.types.contains(&t) || g::ratio(u, 1, 3) {
             m.types.push(t);
         }
     }
